@@ -231,6 +231,35 @@ func (q *quantEval) run(f *ssa.Function, args []qv, depth int) qv {
 					}
 					break
 				}
+				if o := core.CalleeObj(x); o != nil && o.Pkg() != nil && o.Pkg().Path() == "slices" && (o.Name() == "ContainsFunc" || o.Name() == "IndexFunc") && len(x.Call.Args) == 2 {
+					// the library scan: the predicate is applied to the elements in order until it holds
+					pred := funcValueTarget(x.Call.Args[1])
+					if pred == nil || len(pred.Params) != 1 || !returnsBool(pred) {
+						q.err = "predicate passed to slices." + o.Name() + " is not a function literal or named function"
+						return qv{kind: "opaque"}
+					}
+					found := int64(-1)
+					for i := range q.seq {
+						r := q.run(pred, []qv{{kind: "elemval", idx: i}}, depth+1)
+						if q.err != "" {
+							return qv{kind: "opaque"}
+						}
+						if r.kind != "bool" {
+							q.err = "predicate result is not decided by the abstract input"
+							return qv{kind: "opaque"}
+						}
+						if r.b {
+							found = int64(i)
+							break
+						}
+					}
+					if o.Name() == "ContainsFunc" {
+						env[x] = qv{kind: "bool", b: found >= 0}
+					} else {
+						env[x] = qv{kind: "int", i: found}
+					}
+					break
+				}
 				if q.isEvent(x) {
 					q.event = true
 					env[x] = qv{kind: "opaque"}
